@@ -3421,6 +3421,7 @@ class PyCdlib:
         offset = 0
         done = False
         num_bytes_to_add = 0
+        first_ino = None  # type: Optional[inode.Inode]
         while not done:
             # The maximum length we allow in one directory record is 0xfffff800
             # (this is taken from xorriso, though I don't really know why).
@@ -3453,6 +3454,8 @@ class PyCdlib:
             # everything above succeeds
             if ino is not None:
                 self.inodes.append(ino)
+            if offset == 0:
+                first_ino = ino
 
             left -= thislen
             offset += thislen
@@ -3460,7 +3463,12 @@ class PyCdlib:
                 done = True
 
         if udf_path:
-            num_bytes_to_add += self._add_hard_link_to_inode(ino, length,
+            # A UDF File Entry describes the whole file, even a very large one
+            # that was split up above.  Its allocation descriptors start at the
+            # location of the Inode that it is linked to and run on from there,
+            # so that has to be the Inode of the first part (which is also the
+            # one that the File Entry is linked to when the ISO is opened).
+            num_bytes_to_add += self._add_hard_link_to_inode(first_ino, length,
                                                              fmode,
                                                              eltorito_catalog,
                                                              udf_new_path=udf_path)
@@ -3592,7 +3600,9 @@ class PyCdlib:
                     raise pycdlibexception.PyCdlibInternalError('Could not find inode corresponding to record')
                 del self.inodes[found_index]
 
-                num_bytes_to_remove += rec.get_data_length()
+                # What goes away is the data of the Inode; for a very large
+                # file the File Entry describes more than this Inode holds.
+                num_bytes_to_remove += rec.inode.get_data_length()
 
             # Step 3.
             if rec.inode.num_udf == 0:
